@@ -5,7 +5,7 @@
 set -euo pipefail
 VERIF=${VERIF_ROOT:-/verif}
 ID=$1; MOD=$2; IDENT=${3:-check}
-D=$VERIF/build/ocaml/$ID
+D=${VERIF_BUILD:-$VERIF/build}/ocaml/$ID
 mkdir -p "$D"
 cd "$D"
 cat > ext.v <<EOV
